@@ -288,6 +288,10 @@ class Converter:
         graph = self._current_fn
         self._current_fn = self._outer.pop()
         self._locals.pop()
+        # A domain used only inside the block (e.g. a call to another script function)
+        # must still be imported by the enclosing function.
+        for domain, version in graph.opset_imports.items():
+            self._current_fn.opset_imports.setdefault(domain, version)
         return graph
 
     def _current_scope(self) -> dict[str, LocalSymValue]:
